@@ -724,6 +724,7 @@ package decimal
 //@   ensures[mant,C20] mant != nil ==> mant.form == old(x.form) && mant.neg == old(x.neg) && mant.prec == old(x.prec) && mant.mode == old(x.mode) && mant.acc == old(x.acc) &&
 //@        (old(x.form) == finite ==> mant.exp == 0 && V(mant.mant) == old(V(x.mant)) && len(mant.mant) == old(len(x.mant)))
 //@   ensures[operands,C09,C18] mant != x ==> unchanged(x)
+//@   ensures[buffer,C18] mant != nil ==> (mant.mant.arr == old(mant.mant.arr) && mant.mant.off == old(mant.mant.off) && cap(mant.mant) == old(cap(mant.mant))) || fresh(mant.mant)
 //@   ensures[valid,C08] mant != nil ==> valid(mant)
 
 //@ func (z *Decimal) SetMantExp(mant *Decimal, exp int) *Decimal
@@ -917,3 +918,32 @@ package decimal
 //@   hint[entry] len(x) == 2 ==> Vdef(x, 0, 1)
 //@   hint[entry] len(x) >= 1 ==> Vdef(x, 0, 0)
 //@   tags safety C04,C14
+
+// ---------------------------------------------------------------------------
+// Sqrt (C05).  What contracts decide: the special values, ErrNaN exactly for negative
+// operands, the precision rule, the receiver's rounding mode is preserved, the operand is not
+// modified, the result is canonical.  That the Newton iteration in sqrtInverse delivers the
+// correctly rounded root is a numerical convergence argument outside this technique:
+// sqrtInverse is ASSUMED (frame and shape only) and the rounding claim is checked by bounded
+// execution against an exact integer oracle (bounded/c05_sqrt_test.go.txt).
+
+//@ func (z *Decimal) sqrtInverse(x *Decimal)
+//@   requires[wf] z != nil && z == x && opnd_long(z) && z.form == finite && z.prec >= 1 && z.mode <= 5
+//@   modifies z.acc, z.form, z.neg, z.exp, z.mant, memcap(z.mant)
+//@   ensures[valid] valid(z) && z.form == finite && !z.neg && 0 - 2 <= z.exp && z.exp <= 2
+//@   ensures[buffer] (z.mant.arr == old(z.mant.arr) && z.mant.off == old(z.mant.off) && cap(z.mant) == old(cap(z.mant))) || fresh(z.mant)
+//@   status assumed Newton iteration over Decimals seeded from float64: not within reach; rounding checked by bounded execution
+
+//@ func (z *Decimal) Sqrt(x *Decimal) *Decimal
+//@   requires[wf] z != nil && opnd(x) && sep(z, x) && z.mode <= 5 && (z.prec != 0 || z.form != finite) && len(x.mant) <= 10000000 && (z != x ==> valid(z))
+//@   modifies z.prec, z.mode, z.acc, z.form, z.neg, z.exp, z.mant, memcap(z.mant)
+//@   ensures[result] result == z
+//@   ensures[prec,C05,C09] z.prec == (old(z.prec) == 0 ? old(x.prec) : old(z.prec))
+//@   ensures[mode,C05,C09] z.mode == old(z.mode)
+//@   ensures[special,C05,C04] old(x.form) != finite ==> z.form == old(x.form) && z.neg == old(x.neg) && z.acc == 0
+//@   ensures[sign,C05] old(x.form) == finite ==> !z.neg
+//@   ensures[operands,C09,C18] x != z ==> unchanged(x)
+//@   ensures[valid,C08] valid(z)
+//@   panics[nan,C04,C05] old(x.form) != zero && old(x.neg)
+//@   onpanic[valid,C04,C08] old(z.form) != finite || old(z.prec) != 0 ==> z.form == old(z.form) && z.mode == old(z.mode)
+//@   tags safety C04,C05
